@@ -167,6 +167,10 @@ def make_frame(rng, nprng, n, max_sel=20):
     data['sel'] = [rng.choice(sel_vals) for _ in range(n)]
     data['src'] = [rng.choice(['u', 'v', '', 'uv', 'AND', 'w&', ' ']) for _ in range(n)]
     data['cat'] = [rng.choice(['k1', 'k2', 'k3']) for _ in range(n)]
+    if max_sel >= 20:
+        # two columns with 12 resp. 13 values: more than 127 value pairs while each side still fits a narrow integer code
+        data['w12'] = ['a%d' % rng.randrange(12) for _ in range(n)]
+        data['w13'] = ['b%d' % rng.randrange(13) for _ in range(n)]
     data['label'] = [rng.choice(['0', '1']) for _ in range(n)]
     return data
 
@@ -219,7 +223,7 @@ def shard_direct(sh, part):
         order = CONSTRUCTORS[:]
         rng.shuffle(order)
         args = pipe.make_args(heuristic='MI-numba-randomized', transformers=rng.choice(['minimal', 'default']), explode_multivalue_features=rng.choice(['mv', 'mv2;mv']),
-                              subfeature_mapping=rng.choice(['src->sel', 'cat<->sel', 'src<->cat;src->cat']), interaction_order=rng.choice([2, 3]),
+                              subfeature_mapping=rng.choice(['src->sel', 'cat<->sel', 'src<->cat;src->cat', 'w12<->w13', 'w13<->w12;cat->sel']), interaction_order=rng.choice([2, 3]),
                               combination_number_upper_bound=rng.choice([1, 4, 10 ** 6]), include_noise_baseline_features='True')
         w.ctx = {'flags': {'direct-order': order}}
         for name in order:
